@@ -234,6 +234,65 @@ mod imp {
             let after = if outcome == "P" { before.clone() } else { describe(&vm, cw).1 };
             let l = |v: &Vec<u64>| v.iter().map(|x| x.to_string()).collect::<Vec<_>>().join(",");
             println!("QAop {} {}:{} {} {}\t{}|{}", opc, desc, l(&before), iw, vw, outcome, l(&after));
+
+            // ---- literals (ArrayLit 134, VecLit 152): `QLit <opc> <w,w,..>\t<K>:<contents> | E <k> | P`
+            if n % 4 == 0 {
+                let lop = if rng.chance(1, 2) { 134u8 } else { 152 };
+                let cnt = rng.below(5) as usize;
+                let lk = rng.below(4);
+                let ws: Vec<u64> = (0..cnt).map(|_| if rng.chance(3, 4) { elem(&mut rng, lk).raw_bits() } else { *rng.pick(&val_pool) }).collect();
+                let mut f = Function::new(Some("t".into()), 0);
+                f.num_registers = 8;
+                for (i, &w) in ws.iter().enumerate() { f.constants.push(Value::from_raw(w)); f.emit_b(OpCode::LoadK, 1 + i as u8, i as i16, 1); }
+                if let Some(op) = OpCode::from_u8(lop) {
+                    f.emit_a(op, 0, 1, cnt as u8, 1);
+                    f.emit_a(OpCode::Return, 0, 0, 0, 1);
+                    f.finalize_bytecode();
+                    let r = guarded(std::panic::AssertUnwindSafe(|| {
+                        let fr = vm.alloc_function(f).map_err(|e| kind_name(&e.kind).to_string())?;
+                        vm.execute(fr).map(|v| v.raw_bits()).map_err(|e| kind_name(&e.kind).to_string())
+                    }));
+                    let o = match r {
+                        Ok(Ok(w)) => { let (d, c) = describe(&vm, w); format!("{}:{}", d, l(&c)) }
+                        Ok(Err(k)) => { vm.clear_frames(); format!("E {}", match k.as_str() { "TypeError" => 1, "IndexOutOfBounds" => 0, _ => 9 }) }
+                        Err(_) => { vm = VM::new(Source::new("<aop>", "")).expect("vm"); runs = 0; "P".to_string() }
+                    };
+                    println!("QLit {} {}\t{}", lop, l(&ws), o);
+                }
+            }
+            // ---- one for-each step (177 / 178 / 179): `QEach <opc> <container> <idx word>\tW <elem> | S <i> | END | E <k> | P`
+            if n % 3 == 0 {
+                let eop = 177 + rng.below(3) as u8;
+                let ecw: u64 = if rng.chance(1, 4) || desc.starts_with("S:") {      // ASCII strings only: the model takes byte offset = char index
+                     Value::ptr(vm.alloc_string(["", "a", "xyz", "wxyz"][len]).expect("alloc").index()).raw_bits() } else { cw };
+                let eiw = if rng.chance(3, 4) { Value::int(rng.range_i64(-1, 4)).raw_bits() } else { *rng.pick(&idx_pool) };
+                let (edesc, econt) = describe(&vm, ecw);
+                let sentinel = 0x7FFC_0000_0000_0777u64;
+                let mut f = Function::new(Some("t".into()), 0);
+                f.num_registers = 6;
+                for (i, &w) in [eiw, ecw, sentinel].iter().enumerate() { f.constants.push(Value::from_raw(w)); }
+                f.emit_b(OpCode::LoadK, 1, 0, 1);
+                f.emit_b(OpCode::LoadK, 2, 1, 1);
+                f.emit_b(OpCode::LoadK, 3, 2, 1);
+                f.emit_a(OpCode::LoadNull, 0, 0, 0, 1);
+                if let Some(op) = OpCode::from_u8(eop) {
+                    f.emit_b(op, 0, 1, 1);                       // taken: skip the Return below
+                    f.emit_a(OpCode::Return, 3, 0, 0, 1);        // not taken: the sentinel
+                    f.emit_a(OpCode::Return, 0, 0, 0, 1);        // taken: the element
+                    f.finalize_bytecode();
+                    let r = guarded(std::panic::AssertUnwindSafe(|| {
+                        let fr = vm.alloc_function(f).map_err(|e| kind_name(&e.kind).to_string())?;
+                        vm.execute(fr).map(|v| v.raw_bits()).map_err(|e| kind_name(&e.kind).to_string())
+                    }));
+                    let o = match r {
+                        Ok(Ok(w)) if w == sentinel => "END".to_string(),
+                        Ok(Ok(w)) => if edesc.starts_with("S:") { format!("S {}", Value::from_raw(eiw).as_int().unwrap_or(0)) } else { format!("W {}", w) },
+                        Ok(Err(k)) => { vm.clear_frames(); format!("E {}", match k.as_str() { "TypeError" => 1, "IndexOutOfBounds" => 0, _ => 9 }) }
+                        Err(_) => { vm = VM::new(Source::new("<aop>", "")).expect("vm"); runs = 0; "P".to_string() }
+                    };
+                    println!("QEach {} {}:{} {}\t{}", eop, edesc, l(&econt), eiw, o);
+                }
+            }
         }
     }
 
